@@ -351,3 +351,12 @@ Example C20_ex_corruptions_rejected :
   read_graphs (set_line 12 (s "#S a b" ++ nl) ex_file) = FRes (Error EZeroHasConstraints) /\
   read_graphs [s "#S a b" ++ nl; s "0" ++ nl] = FRes (Error EZeroHasConstraints).
 Proof. repeat split; vm_compute; reflexivity. Qed.
+
+(* audit (2026-10-02): the hypothesis predicates of the rejection theorems hold of the lines used in C20_ex_corruptions_rejected *)
+Example C20_ex_bad_lines_meet_the_hypotheses :
+  bad_edge_line (s "b c" ++ nl) /\ hdr_or_nil [] /\ hdr_or_nil [s "# next" ++ nl] /\
+  parse_int (s "3") = IOk 3%Z /\ parse_float (s "two") = FBad /\ parse_int (s "three") <> IOk 3%Z.
+Proof.
+  split; [repeat split; vm_compute; discriminate|]. split; [exact I|]. split; [vm_compute; reflexivity|].
+  split; [vm_compute; reflexivity|]. split; [vm_compute; reflexivity|]. vm_compute. discriminate.
+Qed.
